@@ -202,6 +202,7 @@ func refEval(e *Ex, env map[string]rv) rv {
 		switch e.Text {
 		case "+":
 			if v.k == 'i' || v.k == 'f' {
+				v.o = nil // the result of an operation is an int64 / float64, whatever kind carried the operand
 				return v
 			}
 		case "-":
